@@ -1916,6 +1916,28 @@ class Interp:
                 return Num(z3.If(v.v >= 0, v.v, -v.v), v.tag)
             return abs(v)
 
+        @reg("round")
+        def _round(I, args, kw):
+            # round(x[, n]): some number within half a unit of the n-th decimal place of x (the
+            # rounded value is not otherwise determined in the real-number model)
+            v = args[0]
+            n = args[1] if len(args) > 1 else kw.get("ndigits")
+            if v is NAN or v is INF:
+                if n is None:
+                    I.raise_("ValueError" if v is NAN else "OverflowError", "cannot convert float NaN/infinity to integer", implicit=True)
+                return v
+            if isinstance(v, (int, float)) and not isinstance(v, bool) and (n is None or isinstance(n, int)):
+                return round(v) if n is None else round(v, n)
+            if isinstance(v, Num) and (n is None or isinstance(n, int)):
+                r = I.ps.fresh("round")
+                half = z3.RealVal(5) / z3.RealVal(10 ** (n + 1)) if (n or 0) >= 0 else z3.RealVal(5 * 10 ** (-n - 1))
+                I.ps.assume(z3.And(r - v.v <= half, v.v - r <= half))
+                if n is None:
+                    I.ps.assume(z3.IsInt(r))
+                    return Num(r, (False, False))
+                return Num(r, v.tag)
+            raise OutOfSubset("round() of this operand")
+
         @reg("min")
         def _min(I, args, kw):
             return _minmax(I, args, True)
